@@ -93,7 +93,78 @@ def evaluate(res):
     return corr, orc
 
 
+def cell_clauses(D, H, bs, mode, groups, pgroup_leaves, tag):
+    """the cell-level clauses of C07 on a dump of the float harness (h_tree): used on built and on rebuilt trees"""
+    bad = []
+    for lvl in range(H):
+        gs = groups.get(lvl, [])
+        flat = []
+        for g in gs:
+            if not g["cells"]:
+                bad.append(("C07:empty-group", "%s: empty group at level %d" % (tag, lvl)))
+                continue
+            if g["first"] != g["cells"][0] or g["last"] != g["cells"][-1] or g["n"] != len(g["cells"]):
+                bad.append(("C07:header", "%s: group header (first/last/count) does not match its content at level %d" % (tag, lvl)))
+            if not mode and len(g["cells"]) > bs:
+                bad.append(("C07:size", "%s: group of %d cells exceeds block size %d at level %d" % (tag, len(g["cells"]), bs, lvl)))
+            flat += g["cells"]
+        if any(a >= b for a, b in zip(flat, flat[1:])):
+            bad.append(("C07:order", "%s: cells of level %d are not strictly increasing across groups" % (tag, lvl)))
+        if lvl + 1 < H:
+            below = [c for g in groups.get(lvl + 1, []) for c in g["cells"]]
+            if sorted(set(c >> D for c in below)) != flat:
+                bad.append(("C07:closure", "%s: cells of level %d are not exactly the parents of the cells of level %d" % (tag, lvl, lvl + 1)))
+    lg = [g["cells"] for g in groups.get(H - 1, [])]
+    if lg != pgroup_leaves:
+        bad.append(("C07:leafgroups", "%s: leaf-level cell groups %r differ from the particle groups' leaves %r" % (tag, lg[:4], pgroup_leaves[:4])))
+    if not mode and any(len(g) > bs for g in pgroup_leaves):
+        bad.append(("C07:size", "%s: particle group exceeds block size" % tag))
+    if mode:
+        for lvl in range(H - 1):
+            if len(groups.get(lvl, [])) > len(groups.get(lvl + 1, [])):
+                bad.append(("C07:mode1", "%s: one-group-per-parent: more groups at level %d than below" % (tag, lvl)))
+    return bad
+
+
+def evaluate_history(res):
+    """C07 'is preserved by rebuild()': the clauses on the tree as built and after every rebuild of a move history"""
+    import ftree
+    c = res.case
+    D, H, bs, mode = c["D"], c["H"], c["meta"]["bs"], c["meta"]["mode"]
+    corr, orc = [], []
+    cs, ls = ftree.segments(res.cpp), ftree.segments(res.lean)
+    for key, seg in cs.items():
+        if not (key == "built" or key.startswith("rebuilt")):
+            continue
+        a = [ln for ln in seg if ln.startswith("S G ") or ln.startswith("LF ")]
+        b = [ln for ln in ls.get(key, []) if ln.startswith("S G ") or ln.startswith("LF ")]
+        if a != b:
+            corr.append(("structure-history", "%s: structure dumps differ (library, model): %r" % (key, [(x, y) for x, y in zip(a, b) if x != y][:2] or (len(a), len(b)))))
+        groups, _ = parse_structure(seg)
+        leaves, _ = ftree.parse_leaves(seg, D)
+        pg = {}
+        for gi, idx, coord, ps in leaves:
+            pg.setdefault(gi, []).append(idx)
+            if not ps:
+                orc.append(("C07:empty-leaf", "%s: leaf %d holds no particle" % (key, idx)))
+        orc += cell_clauses(D, H, bs, mode, groups, [pg[k] for k in sorted(pg)], key)
+    return corr, orc
+
+
 def run(rep, tier, seed, replay, proof_ok, proof_msg):
+    import ftree
+    if replay and any(ln.startswith("ftree ") for ln in open(replay)):
+        ftree.standard(rep, tier, seed, replay, proof_ok, proof_msg, "C07", 120, 1500, True, evaluate_history, export=False)
+        return
     corefam.standard_run(rep, tier, seed, replay, proof_ok, proof_msg, gen_cases, evaluate)
+    if not replay:
+        cov_core = dict(rep.cov)
+        ftree.standard(rep, tier, seed, None, True, "", "C07", 120, 1500, True, evaluate_history, export=False)
+        hist = dict(rep.cov)
+        rep.cov.clear()
+        rep.cov.update(cov_core)
+        rep.cov["evaluations"] = cov_core.get("evaluations", 0) + hist.get("evaluations", 0)
+        rep.cov["rebuild_history_cases"] = hist.get("evaluations", 0)
+        rep.cov["rebuild_history_configs"] = hist.get("configs_built", [])
     rep.assumptions += ["positions are exact cell centres of the unit box (the float path is tied in C06)",
                         "the order of particles inside a leaf is not compared (std::sort is unstable)"]
